@@ -109,6 +109,7 @@ type Encoder struct {
 	dual       bool
 	wtSeen     map[string]bool
 	nonLocalKeys map[string]bool
+	loopOuterAllocs map[*ssa.Alloc]bool
 }
 
 type loopInfo struct {
@@ -403,7 +404,7 @@ func (e *Encoder) store(st *State, loc string, t types.Type, v string) {
 		return
 	}
 	acur := st.get(c, akey, asort)
-	isel := fmt.Sprintf("((_ is lelem) %s)", loc)
+	isel := fmt.Sprintf("(is_lelem %s)", loc)
 	st.mem[key] = c.define("M_"+key, sort, fmt.Sprintf("(ite %s %s (store %s %s %s))", isel, cur, cur, loc, v))
 	st.mem[akey] = c.define("M_"+akey, asort, fmt.Sprintf("(ite %s (store %s (ebase %s) (store (select %s (ebase %s)) (eidx %s) %s)) %s)", isel, acur, loc, acur, loc, loc, v, acur))
 }
@@ -525,20 +526,22 @@ func edgeCond(e *Encoder, from, to *ssa.BasicBlock, idx int) string {
 
 // rootedAtAlloc: the address is a local Alloc or a field/element path below one (the Alloc itself
 // may escape; what matters is that the object did not exist when the function was entered).
-func rootedAtAlloc(v ssa.Value) bool {
+func rootedAtAlloc(v ssa.Value) bool { return rootAlloc(v) != nil }
+
+func rootAlloc(v ssa.Value) *ssa.Alloc {
 	for {
 		switch x := v.(type) {
 		case *ssa.Alloc:
-			return true
+			return x
 		case *ssa.FieldAddr:
 			v = x.X
 		case *ssa.IndexAddr:
 			if _, ok := x.X.Type().Underlying().(*types.Pointer); !ok {
-				return false // element of a slice: backing array unknown
+				return nil // element of a slice: backing array unknown
 			}
 			v = x.X
 		default:
-			return false
+			return nil
 		}
 	}
 }
@@ -547,6 +550,7 @@ func rootedAtAlloc(v ssa.Value) bool {
 func (e *Encoder) memKeysWritten(blocks map[*ssa.BasicBlock]bool) (keys map[string]types.Type, all bool) {
 	keys = map[string]types.Type{}
 	e.nonLocalKeys = map[string]bool{}
+	e.loopOuterAllocs = map[*ssa.Alloc]bool{}
 	local := false // the store being classified goes through an address rooted at a local Alloc
 	// shape: 0 both, 1 flat only, 2 array only
 	var addShaped func(t types.Type, shape int)
@@ -580,6 +584,9 @@ func (e *Encoder) memKeysWritten(blocks map[*ssa.BasicBlock]bool) (keys map[stri
 			switch in := in.(type) {
 			case *ssa.Store:
 				local = rootedAtAlloc(in.Addr)
+				if al := rootAlloc(in.Addr); al != nil && !blocks[al.Block()] {
+					e.loopOuterAllocs[al] = true
+				}
 				switch in.Addr.(type) {
 				case *ssa.FieldAddr, *ssa.Alloc, *ssa.Global:
 					addShaped(in.Val.Type(), 1)
